@@ -45,26 +45,43 @@ def cf_es(alpha, vs):
 
 
 def welford_fails(vs):
-    """property oracle on the real class; returns description of the failure or None"""
+    """property oracle on the real class; statistics are READ AFTER EVERY UPDATE for short streams (a caching bug only shows
+    when a reading precedes an update) and at a few prefixes for long ones; returns description of the failure or None"""
+    from ixai.utils.tracker import WelfordTracker
+    n = len(vs)
+    if n == 0:
+        points = [0]
+    elif n <= 40:
+        points = list(range(0, n + 1))
+    else:
+        points = sorted({0, 1, n // 3, n // 2, n - 1, n})
     try:
-        got = py_welford(vs)
+        t = WelfordTracker()
+        ssum, sq = Fraction(0), Fraction(0)
+        for i in range(n + 1):
+            if i > 0:
+                t.update(vs[i - 1])
+                ssum += Fraction(vs[i - 1])
+                sq += Fraction(vs[i - 1]) ** 2
+            if i not in points:
+                continue
+            got = {"N": t.N, "get": t.get(), "mean": t.mean, "var": t.var, "std": t.std, "call": t()}
+            m = ssum / i if i else Fraction(0)
+            var = (sq / i - m * m) if i else Fraction(0)
+            where = f" after {i} of {n} updates" if i != n else ""
+            if got["N"] != i:
+                return f"N={got['N']} expected {i}{where}"
+            for k in ("mean", "get", "call"):
+                if core.canon(got[k]) != core.canon(m):
+                    return f"{k}={core.canon(got[k])} expected mean {core.canon(m)}{where}"
+            if core.canon(got["var"]) != core.canon(var):
+                return f"var={core.canon(got['var'])} expected {core.canon(var)}{where}"
+            sd = float(got["std"])
+            v = float(var)
+            if not (sd >= 0 and abs(sd * sd - v) <= 1e-9 * max(1.0, abs(v))):
+                return f"std={sd} is not the non-negative root of var={v}{where}"
     except Exception as ex:  # the property says it reports statistics for every finite stream
         return f"WelfordTracker raised {core.err_kind(ex)} on a finite stream"
-    want = cf_welford(vs)
-    if got["N"] != want["N"]:
-        return f"N={got['N']} expected {want['N']}"
-    for k in ("mean", "get", "call"):
-        if core.canon(got[k]) != core.canon(want["mean"]):
-            return f"{k}={core.canon(got[k])} expected mean {core.canon(want['mean'])}"
-    if core.canon(got["var"]) != core.canon(want["var"]):
-        return f"var={core.canon(got['var'])} expected {core.canon(want['var'])}"
-    try:
-        sd = float(got["std"])
-        v = float(want["var"])
-        if not (sd >= 0 and abs(sd * sd - v) <= 1e-9 * max(1.0, abs(v))):
-            return f"std={sd} is not the non-negative root of var={v}"
-    except Exception as ex:
-        return f"std failed: {core.err_kind(ex)}"
     return None
 
 
@@ -94,7 +111,7 @@ def gen_streams(chk, consts):
     nrand = 400 if quick else 5000
     int_consts = sorted({int(c) for c in consts if float(c).is_integer() and 2 <= c <= 5000})
     for i in range(nrand):
-        kind = rng.choice(["short", "short", "mid", "sorted", "alternating", "const-jump", "neg"])
+        kind = rng.choice(["short", "short", "mid", "sorted", "alternating", "const-jump", "neg", "mean-tie", "zeros"])
         n = rng.randint(1, 8) if kind == "short" else rng.randint(5, 40)
         vs = [rand_value(rng, consts) for _ in range(n)]
         if kind == "sorted":
@@ -105,6 +122,14 @@ def gen_streams(chk, consts):
             vs = [vs[0]] * (n // 2) + [vs[-1] + 10 ** 6] * (n - n // 2)
         elif kind == "neg":
             vs = [-abs(v) for v in vs]
+        elif kind == "mean-tie":
+            # every third value equals the running mean of the values before it (ties with the tracked value)
+            out = []
+            for j, v in enumerate(vs):
+                out.append(sum(out, Q(0)) / len(out) if (j % 3 == 2 and out) else v)
+            vs = out
+        elif kind == "zeros":
+            vs = [Q(0) if rng.random() < 0.5 else v for v in vs]
         yield kind, vs
     # long integer streams, lengths around constants mined from the source (count-triggered behaviour)
     lengths = [64, 257] + [c + d for c in int_consts for d in (-1, 1, 2)] + ([1500] if quick else [1500, 6000])
